@@ -101,6 +101,64 @@ def _judge_sequence(job):
             "case": {"sequence": [[n1, k1, p1, t1], [n2, k2, p2, t2]]}}
 
 
+def judge_rewrite(job):
+    """a valid module is documented, then the same path is overwritten with a faulty version of it (pinned
+    modification time) and documented again in the same process: the second run must fail"""
+    return common.in_fork(_judge_rewrite, job)
+
+
+def _judge_rewrite(job):
+    name, kind, pos, text = job
+    base = BASES[name.split("+")[0]]
+    r1 = pipeline.document_text(base, mtime=pipeline.FIXED_MTIME)
+    r2 = pipeline.document_text(text, mtime=pipeline.FIXED_MTIME)
+    msgs = []
+    if r1["page"] is None:
+        msgs.append(f"error: valid base module {name} is rejected")
+    if r2["page"] is not None:
+        msgs.append(f"silent-rewrite: {name} documented, then overwritten with {kind} at offset {pos} and documented "
+                    f"again in the same process: a page is returned instead of an error")
+    return {"viol": msgs, "obs": common.digest([r1["error"], r2["error"]]), "nt": common.digest(text), "n": 2,
+            "cls": msgs[0].split(":")[0] if msgs else None,
+            "case": {"rewrite": [name, kind, pos, text]}}
+
+
+ANCESTORS = ["build", "_deps", "CMakeFiles", ".git", ".hidden", "node_modules", "tmp", "docs", "test"]
+
+
+def cli_many(job):
+    """n faulty files named on one command line / one faulty file below directories with names that tools like to skip"""
+    name, kind, pos, text, n, where = job
+    root = os.path.join(pipeline.tmpdir(), f"many-{common.digest([text, n, where])}")
+    shutil.rmtree(root, ignore_errors=True)
+    ind = os.path.join(root, *(ANCESTORS if where == "ancestors" else []), "in")
+    os.makedirs(ind)
+    os.makedirs(os.path.join(root, "cfg"))
+    files = []
+    for i in range(n):
+        files.append(os.path.join(ind, f"bad{i}.cmake"))
+        with open(files[-1], "w", encoding="utf-8") as f:
+            f.write(text)
+    env = dict(os.environ, CMINXDIR=os.path.join(root, "cfg"), HOME=root, XDG_CONFIG_HOME=os.path.join(root, "cfg"))
+    code = CLI % common.REPO_SRC
+    msgs = []
+    out = os.path.join(root, "out")
+    p = subprocess.run([common.PYTHON, "-c", code, "-o", out] + files, capture_output=True, text=True, env=env, cwd=root)
+    wrote = [f for f in (os.listdir(out) if os.path.isdir(out) else []) if f.startswith("bad")]
+    if p.returncode == 0 or wrote:
+        msgs.append(f"silent-cli: `cminx -o out <{n} faulty file(s)>`{' below ' + '/'.join(ANCESTORS) if where == 'ancestors' else ''} "
+                    f"exits {p.returncode}{' and wrote ' + str(sorted(wrote)[:3]) if wrote else ''} ({kind} at offset {pos} of {name})")
+    if where == "ancestors":
+        out2 = os.path.join(root, "out2")
+        p2 = subprocess.run([common.PYTHON, "-c", code, "-r", "-o", out2, ind], capture_output=True, text=True, env=env, cwd=root)
+        if p2.returncode == 0:
+            msgs.append(f"silent-cli: `cminx -r -o out dir` below {'/'.join(ANCESTORS)} exits 0 although dir/bad0.cmake has {kind} at offset {pos}")
+    shutil.rmtree(root, ignore_errors=True)
+    return {"viol": msgs, "obs": common.digest([p.returncode]), "nt": common.digest([text, n, where]), "n": 1,
+            "cls": f"silent-cli {where}" if msgs else None,
+            "case": {"many": [name, kind, pos, text, n, where]}}
+
+
 def _judge_mutant(job, use_cmake=True):
     name, kind, pos, text = job
     try:
@@ -260,7 +318,22 @@ def run(ctx):
             spread += [lst[0], lst[len(lst) // 2], lst[-1]]
     pairs = [(a, b) for a in spread for b in spread] if not quick else [(a, b) for a in spread[::2] for b in spread[::2]]
     ctx.sweep(judge_sequence, pairs, space="two faulty modules in one process", selftest=0, isolate=False)
-    ctx.cov["bounds"] = {"bases": list(BASES), "fault_kinds": 10, "cli_confirmations": len(cli)}
+    # the same path first valid, then faulty, in one process
+    rw = [j for k, lst in sorted(byk.items()) for j in ([lst[0], lst[len(lst) // 2], lst[-1]] if quick else lst[::3])
+          if j[0] in BASES]
+    ctx.sweep(judge_rewrite, rw, space="valid module overwritten with a faulty one, one process", selftest=0, isolate=False)
+    # many faulty inputs on one command line (exit statuses are 8 bits wide); inputs below oddly named directories
+    many = []
+    for k, lst in sorted(byk.items()):
+        if k[0] == "flat_sets":
+            j = lst[len(lst) // 2]
+            many.append(j + (1, "ancestors"))
+            if k[1] in ("quote", "rparen") or not quick:
+                many += [j + (n, "plain") for n in ((2, 256) if quick else (2, 3, 255, 256, 257, 512))]
+    ctx.sweep(cli_many, many, space="CLI: n faulty inputs / odd ancestor directories", selftest=0, chunk=1, isolate=False)
+    ctx.cov["bounds"] = {"bases": list(BASES), "fault_kinds": 10, "cli_confirmations": len(cli),
+                         "inputs_per_command_line": [1, 2, 256] if quick else [1, 2, 3, 255, 256, 257, 512],
+                         "ancestor_directory_names": ANCESTORS}
     ctx.assumptions += ["a mutant that cmake accepts (legacy unquoted forms, faults that re-pair with later text) is not judged",
                         "bad escapes inside function bodies are judged by the manual's rule alone (CMake checks them at execution)"]
     return RULE
@@ -277,6 +350,10 @@ def reflex_scan_ok(t):
 def replay(case):
     if "sequence" in case:
         return judge_sequence(tuple(tuple(x) for x in case["sequence"]))["viol"]
+    if "rewrite" in case:
+        return judge_rewrite(tuple(case["rewrite"]))["viol"]
+    if "many" in case:
+        return cli_many(tuple(case["many"]))["viol"]
     job = (case["name"], case["kind"], case["pos"], case["text"])
     if case.get("cli"):
         return cli_case(job)["viol"]
